@@ -97,14 +97,16 @@ PROPS = {
     },
     "C18": {
         "units": ["c18_shape"],
-        "gen": [{"corpus": "supports", "mode": "full"}],
+        "gen": [{"corpus": "supports", "mode": "full"}, {"corpus": "variant_supports", "mode": "full"}],
         "level_text": "Every function of core/src/util/shape.rs (ShapeSet::{new, from_iter, insert, insert_all, is_empty, contains_shape, contains, check, to_vec}, "
                       "Display for ShapeSet/Shape, Shape::description, the seven AsShape impls) and Error::unsupported_shape_with_expected are proved on their real bodies "
                       "against an oracle written from the statement: accepts(set, s) = some declared word admits s, where a word admits its own shape and `tuple` also admits Newtype. "
                       "contains/contains_shape return exactly accepts; insert changes exactly the flag of its word; check is Ok iff accepts and otherwise equals the "
                       "unsupported-shape error; to_vec is a duplicate-free list of <= 3 declared words with the same acceptance; the unreachable!() in Display is proved unreachable. "
                       "L3: the __validate_body emitted by the working tree's derive for a receiver declaring supports(..) is proved, for all bodies, equal to the verdict table "
-                      "(struct vs enum-only words, per-variant errors in order, union => error; quick: 6 declarations, thorough: all 255 struct x enum word subsets).",
+                      "(struct vs enum-only words, per-variant errors in order, union => error; quick: 6 declarations, thorough: all 255 struct x enum word subsets). "
+                      "FromVariant receivers declaring supports(..) (corpus variant_supports): the emitted from_variant checks the variant's fields against exactly the SET of declared words, after the attribute walk and before the presence checks, "
+                      "and a rejected shape is one more accumulated error (never a short-circuit).",
         "level_note": "Proof for all sets/shapes/containers; L3 proof per declaration (exhaustive over word subsets in the thorough tier). Trusted: reduced syn mirrors (Punctuated::len is a pure count), IntoIterator yield sequence, derive(Default) = all false, "
                       "Display text (R11), Error/Accumulator contracts proved in l1_error_api / c05_accumulator.",
         "design_ref": "DESIGN.md section 6 C18",
@@ -117,7 +119,7 @@ PROPS = {
             "description texts are checked against the literals of Shape's rustdoc; the property only uses their pairwise distinctness (lemma_desc_injective)",
         ],
         "not_covered": [
-            "from_variant's supports check (FromVariant receivers are not in the L3 corpus yet); word parsing is under C10 (set_word)",
+            "FromVariant supports: ShapeSet::new/check are seen through a restated contract over the opaque field list of the element mirror (verdict function uninterpreted; its meaning is proved in c18_shape); word parsing is under C10 (set_word)",
             "the message text rendered by Display for ShapeSet (only panic-freedom is proved)",
         ],
     },
